@@ -82,15 +82,64 @@ def build(desc):
                       is_stop=s.get('is_stop', False), **kw)
     ap = desc['aperture']
     o.set_aperture(aperture_type=ap[0], value=ap[1])
-    o.set_field_type(field_type=desc['field_type'])
+    if not desc.get('fields_first'):
+        o.set_field_type(field_type=desc['field_type'])
     for f in desc['fields']:
         o.add_field(y=f[0], x=f[1] if len(f) > 1 else 0.0,
                     vx=f[2] if len(f) > 2 else 0.0, vy=f[3] if len(f) > 3 else 0.0)
+    if desc.get('fields_first'):
+        # the order of the two public calls is free: field points first, their type afterwards
+        o.set_field_type(field_type=desc['field_type'])
     for w in desc['wavelengths']:
         o.add_wavelength(value=w[0], is_primary=bool(w[1]))
     if desc.get('telecentric'):
         o.obj_space_telecentric = True
     return o
+
+
+def construction_diffs(desc, o, rtol=1e-12):
+    """the lens built by add_surface against the descriptor it was built from: decentres, tilts, vertex positions
+    (cumulative thicknesses, first surface at 0), radius, conic, coefficient tables.  [] when they agree.
+    (Descriptors with `post` operations are edited after construction: not for them.)"""
+    out = []
+    surfs = o.surface_group.surfaces
+    ds = desc['surfaces']
+    if len(surfs) != len(ds):
+        return [('number of surfaces', len(surfs), len(ds))]
+
+    def num(v):
+        return float(np.ravel(v)[0])
+
+    def ne(a, b):
+        return not (a == b or abs(a - b) <= rtol * max(abs(a), abs(b)) + 1e-300)
+    z = 0.0
+    for k, (d, q) in enumerate(zip(ds, surfs)):
+        cs = q.geometry.cs
+        for key, attr in (('dx', 'x'), ('dy', 'y'), ('rx', 'rx'), ('ry', 'ry')):
+            want = float(d.get(key, 0.0))
+            got = num(getattr(cs, attr))
+            if ne(got, want):
+                out.append(('surface %d %s' % (k, key), got, want))
+        if k == 0:
+            t0 = _num(d.get('thickness', 0))
+            if not math.isinf(t0) and ne(num(cs.z), -t0):
+                out.append(('object surface z', num(cs.z), -t0))
+        else:
+            if ne(num(cs.z), z) and abs(num(cs.z) - z) > 1e-12 * max(1.0, abs(z)):
+                out.append(('surface %d z' % k, num(cs.z), z))
+            z += _num(d.get('thickness', 0)) if k < len(ds) - 1 else 0.0
+        R = _num(d.get('radius', INF))
+        gR = getattr(q.geometry, 'radius', None)
+        if gR is not None and not (math.isinf(R) and math.isinf(num(gR))) and ne(num(gR), R):
+            out.append(('surface %d radius' % k, num(gR), R))
+        if 'conic' in d and hasattr(q.geometry, 'k') and ne(num(q.geometry.k), float(d['conic'])):
+            out.append(('surface %d conic' % k, num(q.geometry.k), float(d['conic'])))
+        if 'coefficients' in d and hasattr(q.geometry, 'c'):
+            want = np.array(d['coefficients'], dtype=float)
+            got = np.array(q.geometry.c, dtype=float)
+            if got.shape != want.shape or not np.allclose(got, want, rtol=rtol, atol=0.0):
+                out.append(('surface %d coefficients' % k, got.tolist(), want.tolist()))
+    return out
 
 
 def dyadic(rng, lo, hi, bits=6):
@@ -184,7 +233,9 @@ def gen_lens(rng, nsurf=None, allow_mirror=True, allow_conic=True, allow_asphere
                 s['norm_x'] = 50.0
                 s['norm_y'] = 50.0
             s.setdefault('conic', 0.0)
-        if allow_tilt and rng.random() < 0.25:
+        if allow_tilt and (rng.random() < 0.25 or (s.get('surface_type') in ('polynomial', 'chebyshev', 'even_asphere')
+                                                   and rng.random() < 0.5)):
+            # (every surface type takes its own route through the surface factory: tilts / decentres on each of them)
             s['dx'] = rng.uniform(-0.3, 0.3)
             s['dy'] = rng.uniform(-0.3, 0.3)
             s['rx'] = rng.uniform(-0.05, 0.05)
@@ -235,7 +286,10 @@ def gen_lens(rng, nsurf=None, allow_mirror=True, allow_conic=True, allow_asphere
     wl = [[0.4861327, 0], [0.5875618, 1], [0.6562725, 0]][:rng.randint(1, 3)]
     if not any(w[1] for w in wl):
         wl[0][1] = 1
-    return {'surfaces': surfaces, 'aperture': ap, 'field_type': ft, 'fields': fields, 'wavelengths': wl}
+    out = {'surfaces': surfaces, 'aperture': ap, 'field_type': ft, 'fields': fields, 'wavelengths': wl}
+    if rng.random() < 0.25:
+        out['fields_first'] = True       # add_field before set_field_type
+    return out
 
 
 def approx_f2(surfaces):
